@@ -175,6 +175,7 @@ func (w *pw) Apply(x *vrt.Exec, evn string) {
 		}
 	}
 	w.logMark = len(w.cloud.Log)
+	crFaultArmed := w.failCreateCR
 	f := strings.Split(evn, ":")
 	var i int
 	if len(f) > 1 {
@@ -193,12 +194,18 @@ func (w *pw) Apply(x *vrt.Exec, evn string) {
 			anno[types.PodNetworking] = "pn-fixed-ttl"
 		case "fixed-never":
 			anno[types.PodNetworking] = "pn-fixed-never"
-		case "two", "two-fixed":
+		case "two", "two-fixed", "two-fixed-rev", "two-ttl":
+			first := fmt.Sprintf(`{"type":"Fixed","releaseStrategy":"TTL","releaseAfter":%q}`, ttl.String())
 			second := `{"type":"Elastic"}`
-			if w.cfg.Kinds[i] == "two-fixed" {
+			switch w.cfg.Kinds[i] {
+			case "two-fixed":
 				second = `{"type":"Fixed","releaseStrategy":"Never"}`
+			case "two-fixed-rev": // the keep-saying allocation listed BEFORE the one whose TTL expires
+				first, second = `{"type":"Fixed","releaseStrategy":"Never"}`, first
+			case "two-ttl": // a long TTL listed before a short one
+				first, second = fmt.Sprintf(`{"type":"Fixed","releaseStrategy":"TTL","releaseAfter":%q}`, (10 * ttl).String()), first
 			}
-			anno[types.PodNetworks] = fmt.Sprintf(`{"podNetworks":[{"interface":"eth0","vSwitchOptions":["vsw-1"],"securityGroupIDs":["sg-1"],"allocationType":{"type":"Fixed","releaseStrategy":"TTL","releaseAfter":%q}},{"interface":"eth1","vSwitchOptions":["vsw-1"],"securityGroupIDs":["sg-1"],"allocationType":%s}]}`, ttl.String(), second)
+			anno[types.PodNetworks] = fmt.Sprintf(`{"podNetworks":[{"interface":"eth0","vSwitchOptions":["vsw-1"],"securityGroupIDs":["sg-1"],"allocationType":%s},{"interface":"eth1","vSwitchOptions":["vsw-1"],"securityGroupIDs":["sg-1"],"allocationType":%s}]}`, first, second)
 		}
 		_ = w.c.Create(ctx, &corev1.Pod{ObjectMeta: metav1.ObjectMeta{Namespace: "ns", Name: w.podName(i), UID: k8stypes.UID(fmt.Sprintf("uid-%d-%d", i, w.gen[i])), Annotations: anno},
 			Spec: corev1.PodSpec{NodeName: f[2], Containers: []corev1.Container{{Name: "c"}}}})
@@ -240,6 +247,34 @@ func (w *pw) Apply(x *vrt.Exec, evn string) {
 	for _, c := range w.cloud.Log[w.logMark:] {
 		if c.Op == "Create" && c.ENI != "" {
 			w.created[c.ENI] = true
+		}
+	}
+	// (d, immediate form) a reconcilePod whose creation failed — at an interface or at the PodENI create call — has
+	// rolled back what it created: no interface of ours without a record, unless the rollback's own delete was the failing call
+	if f[0] == "reconcilePod" {
+		deleteFaulted := false
+		for _, c := range w.cloud.Log[w.logMark:] {
+			if c.Op == "Delete" && c.Fault != "" {
+				deleteFaulted = true
+			}
+		}
+		_ = crFaultArmed
+		if !deleteFaulted {
+			ref := map[string]bool{}
+			for k := range w.cfg.Kinds {
+				if cr := w.cr(k); cr != nil {
+					for _, a := range cr.Spec.Allocations {
+						ref[a.ENI.ID] = true
+					}
+				}
+			}
+			for _, c := range w.cloud.Log[w.logMark:] {
+				if c.Op == "Create" && c.ENI != "" && !c.Err {
+					if e := w.cloud.ENIs[c.ENI]; e != nil && !e.Deleted && !ref[c.ENI] {
+						x.Failf("C10/interface-without-record-after-failed-create", "reconcilePod created %s, the creation of the record (or of a further interface) failed, and %s was neither deleted nor recorded; cloud calls %v; %s", c.ENI, c.ENI, w.cloud.LogStrings(w.logMark), hist)
+					}
+				}
+			}
 		}
 	}
 	// (a) phase relation
@@ -293,9 +328,15 @@ func (w *pw) Apply(x *vrt.Exec, evn string) {
 			continue
 		}
 		never := false
+		ttl := time.Duration(0) // the longest TTL among the fixed allocations: the record is kept if ANY allocation says keep
 		for _, a := range prev.Spec.Allocations {
 			if a.AllocationType.Type == v1beta1.IPAllocTypeFixed && a.AllocationType.ReleaseStrategy == v1beta1.ReleaseStrategyNever {
 				never = true
+			}
+			if a.AllocationType.Type == v1beta1.IPAllocTypeFixed && a.AllocationType.ReleaseStrategy == v1beta1.ReleaseStrategyTTL {
+				if d, err := time.ParseDuration(a.AllocationType.ReleaseAfter); err == nil && d > ttl {
+					ttl = d
+				}
 			}
 		}
 		age := vrt.TimeNow().Add(-time.Second).Sub(prev.Status.PodLastSeen.Time)
